@@ -26,6 +26,7 @@ RULE += (" save(format='ioapi') is a legal query step inside a program (the next
 RULE += (' A share of the gridded files is the IOAPI-class object the CAMx gridded READER (uamiv) returns for an image written by the independent codec (whole-hour steps up to 168 h, ETFLAG present, header completed by the class).')
 RULE += (" Writer case (one gridded case in five with >= 2 steps): the same IOAPI content saved, opened as a plain netCDF file (no format named), cut to its later steps with the generic slice and written through the 'ioapi' writer; the written file must be coherent, decode to the kept steps, and close its last interval with the step it states. Files from the CAMx reader include surface files with nz = 0 in the grid header.")
 RULE += (' IOAPI files may carry a variable without dimensions.')
+RULE += (" Half of the IOAPI files opened from disk are written here with netCDF4 directly the way the Models-3 I/O API library writes them (netCDF classic 64-bit offset, int32 header integers, float64 grid reals, float32 VGLVLS, TFLAG first, TSTEP the record dimension), independent of the library's writers.")
 ASSUMPTIONS = [
     'a file with zero listed variables may keep VAR/TFLAG second axis of '
     'length 1 (the convention cannot express an empty axis)',
@@ -98,9 +99,17 @@ def run(spec, res):
         if spec.get('disk'):
             import os
             import PseudoNetCDF as pnc
-            path = os.path.join(d, 'io.nc')
-            h.keep(f.save(path, format='NETCDF3_CLASSIC', verbose=0)).close()
-            f = h.keep(pnc.pncopen(path, format='ioapi'))
+            g = gen_ioapi.open_m3io(spec['file'], d, h) \
+                if spec['prog_seed'] % 2 == 0 else None
+            if g is not None:
+                # the file as the I/O API library itself writes it
+                f = g
+                res.facet('via:disk-m3io')
+            else:
+                path = os.path.join(d, 'io.nc')
+                h.keep(f.save(path, format='NETCDF3_CLASSIC',
+                              verbose=0)).close()
+                f = h.keep(pnc.pncopen(path, format='ioapi'))
             res.facet('via:disk')
         else:
             res.facet('via:' + spec['file']['via'])
